@@ -986,7 +986,8 @@ theorem Ev.calm {pf : Option Frag} {a a' : Acc} (h : Ev pf a a') :
 /-- (a) a data series that ends without confirmation at time `t` arms the retry delay: `unsol = ready (t + rdelay)` -/
 theorem series_end_sets_delay (a : Acc) :
     afterUnsolSeries a false false =
-      (({ a.1 with unsol := .ready (some (a.1.now + a.1.cfg.rdelay)) }, a.2), .until (a.1.now + a.1.cfg.rdelay)) := rfl
+      (({ a.1 with db := a.1.db.reset, unsol := .ready (some (a.1.now + a.1.cfg.rdelay)) }, a.2),
+        .until (a.1.now + a.1.cfg.rdelay)) := rfl
 
 /-- (b) until that time `checkUnsolicited` starts nothing (it only reports when to look again) -/
 theorem no_series_before_delay (a : Acc) (d : Nat) (hu : a.1.cfg.unsolicited = true)
